@@ -32,7 +32,7 @@ from vf.ref import tlshello
 PROPERTY = "C19"
 LEVEL = "exploration"
 ENGINE = "sansio"
-BUDGET = {"quick": (260, 14), "thorough": (12000, 240)}
+BUDGET = {"quick": (260, 12), "thorough": (12000, 240)}
 WORKERS = {"quick": 4, "thorough": 16}
 REQUIRED = ["decision", "decision.excluded", "decision.not_excluded", "no_intercept", "transparent", "intercepted", "tls_hook_passthrough", "mode.regular", "mode.transparent", "mode.reverse", "mode.socks5"]
 TECHNIQUE = "runtime monitoring: real NextLayer addon + mode layers on the sans-io driver, independent host-rule oracle, end-to-end byte comparison"
